@@ -36,6 +36,8 @@ pub fn compute_coset_elements(
 ) -> (Vec<Felt>, Felt) {
     let mut coset_elements = Vec::new();
     let mut coset_x_inv = Felt::ZERO;
+    #[cfg(swiftness_verif)]
+    let mut verif_from_query: Vec<u64> = Vec::new();
     let coset_size: usize = coset_size.to_biguint().try_into().unwrap();
     for index in 0..coset_size {
         let q = queries.first();
@@ -43,12 +45,23 @@ pub fn compute_coset_elements(
             let query: Vec<FriLayerQuery> = queries.drain(0..1).collect();
             coset_elements.push(query[0].y_value);
             coset_x_inv = query[0].x_inv_value * fri_group.get(index).unwrap();
+            #[cfg(swiftness_verif)]
+            verif_from_query.push(1);
         } else {
             let withness: Vec<Felt> = sibling_witness.drain(0..1).collect();
             coset_elements.push(withness[0]);
+            #[cfg(swiftness_verif)]
+            verif_from_query.push(0);
         }
     }
 
+    #[cfg(swiftness_verif)]
+    swiftness_transcript::verif::ev("fri.gather")
+        .f("start", &coset_start_index)
+        .fs("elems", coset_elements.iter())
+        .us("from_query", &verif_from_query)
+        .f("x_inv", &coset_x_inv)
+        .emit();
     (coset_elements, coset_x_inv)
 }
 
@@ -96,6 +109,15 @@ pub fn compute_next_layer(
             fri_formula(coset_elements, params.eval_point, coset_x_inv, coset_size)?;
 
         let next_x_inv = coset_x_inv.pow_felt(&params.coset_size);
+        #[cfg(swiftness_verif)]
+        swiftness_transcript::verif::ev("fri.fold")
+            .f("coset", &coset_index)
+            .f("coset_size", &params.coset_size)
+            .f("eval_point", &params.eval_point)
+            .f("x_inv", &coset_x_inv)
+            .f("out", &fri_formula_res)
+            .f("next_x_inv", &next_x_inv)
+            .emit();
         next_queries.push(FriLayerQuery {
             index: coset_index,
             y_value: fri_formula_res,
